@@ -75,6 +75,8 @@ type Config struct {
 	// a proper prefix - it is the same execution as that shorter program (the transaction function returns
 	// at the first error). Only set this when the single operations are explored on the same state space.
 	SkipRejectedPrefix bool
+	// BatchRejected: programs for which a rejection is additionally exercised through Db.Batch (10 ms each)
+	BatchRejected func(program []int) bool
 	// PerTransition is an optional extra oracle run inside the open transaction after an accepted program.
 	PerTransition func(tx *bbolt.Tx, pre *State, program []int, post *dump.Tree, m Model) error
 	KeepFiles     bool
@@ -477,6 +479,36 @@ func (e *Explorer) expand(s *State) []succ {
 			continue
 		}
 		if opErr != nil {
+			// the same rejected program through Db.Batch: bbolt runs a failed batch function a second time on its
+			// own (same mutate context), the refusal must survive that and the database must stay unchanged
+			if e.Cfg.BatchRejected != nil && e.Cfg.BatchRejected(program) && !contains(classes, "skip") {
+				var bErr error
+				ctx := e.Sc.Context(program)
+				err := db.Batch(ctx, func(ctx boltz.MutateContext) error {
+					for _, o := range program {
+						if err := e.ops[o].Do(ctx); err != nil {
+							bErr = err
+							return err
+						}
+					}
+					return nil
+				})
+				e.Rep.Count("rejected_programs_through_batch", 1)
+				bClass := "ok"
+				if err != nil {
+					bClass = e.Sc.Classify(err)
+				}
+				var after *dump.Tree
+				_ = db.View(func(tx *bbolt.Tx) error { after = dump.Tx(tx); return nil })
+				if err == nil || !contains(classes, bClass) {
+					e.violation("outcome-mismatch-through-batch", s, program, fmt.Sprintf("through Db.Batch the outcome is %q (err=%v, store call err=%v); through Db.Update it is %q; reference model allows %v", bClass, err, bErr, implClass, classes), "impl="+bClass, fmt.Sprintf("model=%v", classes))
+				}
+				if after.Hash() != s.Hash {
+					e.violation("rejected-batch-changed-state", s, program, "Db.Batch of a rejected program changed the database:\n"+dump.Diff(pre, after))
+					// the state file is no longer the state: stop expanding it
+					break
+				}
+			}
 			continue
 		}
 		if obsErr != nil {
